@@ -18,6 +18,7 @@ package agent
 // Accessors to unexported state live here (package agent) and in harness/exit, harness/forward (ZZVSnapshot).
 
 import (
+	"bytes"
 	"context"
 	"encoding/hex"
 	"encoding/json"
@@ -678,17 +679,17 @@ type zzvRProj struct {
 }
 
 // zzvReadLoops counts the goroutines inside exit.(*Handler).readLoop / forward.(*Handler).readLoop
+var zzvStackBuf = make([]byte, 1<<20)
+
 func zzvReadLoops() int {
-	buf := make([]byte, 1<<20)
 	for {
-		n := runtime.Stack(buf, true)
-		if n < len(buf) {
-			buf = buf[:n]
-			break
+		n := runtime.Stack(zzvStackBuf, true)
+		if n < len(zzvStackBuf) {
+			b := zzvStackBuf[:n]
+			return bytes.Count(b, []byte("exit.(*Handler).readLoop(")) + bytes.Count(b, []byte("forward.(*Handler).readLoop("))
 		}
-		buf = make([]byte, 2*len(buf))
+		zzvStackBuf = make([]byte, 2*len(zzvStackBuf))
 	}
-	return strings.Count(string(buf), "exit.(*Handler).readLoop(") + strings.Count(string(buf), "forward.(*Handler).readLoop(")
 }
 
 func zzvNewProj() *zzvRProj {
@@ -1043,13 +1044,14 @@ func (w *zzvRWorld) compare(exp, got *zzvRProj, commit bool) string {
 	}
 	// everything else agrees: the read loops of removed connections must have ended before the next step
 	// (checked only at steps where the number changes: counting goroutines stops the world)
-	if got.Loops >= 0 && exp.Loops != w.loopsSeen {
-		if n := zzvReadLoops(); n != exp.Loops {
+	if got.Loops >= 0 && exp.Loops < w.loopsSeen {
+		// a connection went away in this step: its read loop has to be gone too
+		if n := zzvReadLoops(); n > exp.Loops {
 			return fmt.Sprintf("readloops: spec %d real %d", exp.Loops, n)
 		}
-		if commit {
-			w.loopsSeen = exp.Loops
-		}
+	}
+	if commit {
+		w.loopsSeen = exp.Loops
 	}
 	if commit {
 		for id, l := range learn {
@@ -1306,6 +1308,7 @@ func zzvRelayReplayJob(t *testing.T, ji int, in *zzvRIn) {
 			break
 		}
 		w := zzvNewRelayWorld(t, in.Topo, in.Variant, kinds, 0)
+		pathStart := time.Now()
 		for _, b := range in.Burn {
 			w.burn(b[0], b[1])
 		}
@@ -1325,7 +1328,14 @@ func zzvRelayReplayJob(t *testing.T, ji int, in *zzvRIn) {
 			ep := w.specProj(exp)
 			if d, got := w.settle(ep, patience); d != "" {
 				mism++
-				zzvEmit("mismatch", map[string]any{"job": ji, "name": in.Name, "path": pi, "step": si, "a": act, "diff": d, "spec": ep, "real": got, "t": step.T})
+				rec := map[string]any{"job": ji, "name": in.Name, "path": pi, "step": si, "a": act, "diff": d, "spec": ep, "real": got, "t": step.T}
+				if el := time.Since(pathStart); el > 20*time.Second {
+					// the code gives up a pending open after 30 s of real time: a path that takes this long (overloaded
+					// machine) cannot be compared with the spec any more
+					rec["infra"] = true
+					rec["diff"] = fmt.Sprintf("harness: the path took %v, longer than the code's real-time open timeout allows (%s)", el.Round(time.Second), d)
+				}
+				zzvEmit("mismatch", rec)
 				break
 			}
 		}
